@@ -200,6 +200,8 @@ def _viol(name, hist, seed, cfg, exp, got, kind):
 def run(ctx):
     from ..run import merge
     fl = [x for x in F.f3_files(ctx.tier, daqmx=False)] + extra_files()
+    if ctx.tier == 'thorough':
+        fl += [('f6/' + n, h) for n, h in F.f6_files('thorough') if not n.startswith('daqmx')]
     m = merge(ctx.map(run_file, [(n, h, ctx.seed) for n, h in fl]))
     c = m['counters']
     cov = {'evaluations': c['defrags'], 'files': c['files'], 'distinct_nontrivial': c['nontrivial'],
